@@ -103,7 +103,7 @@ def c14_r2(ctx: Ctx, rule):
         bp = ifi.params[1] if len(ifi.params) > 1 else None
         rebound = [n for n in walk_function(ifi.node) if isinstance(n, (ast.Assign, ast.AugAssign, ast.AnnAssign, ast.NamedExpr))
                    and any(isinstance(x, ast.Name) and x.id == bp for t in (n.targets if isinstance(n, ast.Assign) else [n.target]) for x in ast.walk(t))]
-        forwards = [c for c in calls_in(ifi.node) if call_name(c) == "__init__" and any(isinstance(a, ast.Name) and a.id == bp for a in c.args)]
+        forwards = [c for c in calls_in(ifi.node) if call_name(c) == "__init__" and any(isinstance(a, ast.Name) and a.id == bp for a in list(c.args) + [k.value for k in c.keywords])]
         stores = [n for n in walk_function(ifi.node) if isinstance(n, ast.Assign) and isinstance(n.value, ast.Name) and n.value.id == bp and any(isinstance(t, ast.Attribute) and "bundle" in t.attr for t in n.targets)]
         stored = stored or bool(stores)
         ok = bp is not None and not rebound and (forwards or stores)
@@ -147,6 +147,11 @@ def c14_r3(ctx: Ctx, rule):
             key = a.slice if isinstance(a, ast.Subscript) else a
             pos.append(formal_position(fi, key))
         rel = next((norm(k.value) for k in c.keywords if k.arg == "relation"), None)
+        for k in c.keywords:  # add_edge(a, b, **{"relation": r})
+            if k.arg is None and isinstance(k.value, ast.Dict):
+                for dk, dv in zip(k.value.keys, k.value.values):
+                    if isinstance(dk, ast.Constant) and dk.value == "relation":
+                        rel = norm(dv)
         res.ob("%s: source = formal position %s, target = formal position %s, relation=%s" % (norm(c)[:60], pos[0], pos[1], rel))
         if pos != [0, 1]:
             res.fail(rule.id, "edge-direction", ctx.loc(q, c), "the edge runs from formal position %s to %s" % (pos[0], pos[1]),
@@ -380,3 +385,24 @@ def c05_r6(ctx: Ctx, rule):
         for w in wrong:
             res.fail(rule.id, "forwarder-misroutes::%s::%s" % (q, w), ctx.loc(q, call), "%s passes %s" % (short(q), w), "an argument lands in another role")
     return res
+
+
+# the C14 rules reason about the body of prov_to_graph / graph_to_prov: show them prov.graph with its private module-level
+# helpers inlined into their callers (sa/inline.py), so an extracted `_add_relation_edge(...)` is seen where it is called
+def _with_inlined_graph(fn):
+    def run(ctx, rule):
+        from ..inline import inlined_module_view
+
+        view = inlined_module_view(ctx, GR)
+        res = fn(view, rule)
+        info = view._cache.get("inline-info", {})
+        if info.get("absorbed"):
+            res.exceptions.append("prov.graph helpers analysed inlined in their callers: %s" % info["absorbed"])
+        return res
+
+    run.__name__ = getattr(fn, "__name__", "rule")
+    return run
+
+
+for _r in RULES.get("C14", []):
+    _r.fn = _with_inlined_graph(_r.fn)
